@@ -330,15 +330,21 @@ class AstInfo:
         if lineno in self.module.no_cover_lines:
             return False
 
+        start, end = scope_line_range(self.ast)
         return (
             not self.module.only_cover_lines
             or lineno in self.module.only_cover_lines
             or any(
                 child_lineno in self.module.only_cover_lines
-                for child_lineno in range(
-                    scope_line_range(self.ast)[0], scope_line_range(self.ast)[1] + 1
-                )
+                for child_lineno in range(start, end + 1)
                 if child_lineno not in self.module.no_cover_lines
+            )
+            or any(
+                scope_line_range(parent_node)[0] in self.module.only_cover_lines
+                for parent_node in nodes_of_class(
+                    self.module.module_ast, (ast.FunctionDef, ast.AsyncFunctionDef, ast.ClassDef)
+                )
+                if scope_line_range(parent_node)[0] <= start and end <= scope_line_range(parent_node)[1]
             )
         )
 
